@@ -53,7 +53,7 @@ def matches_known(kf, start, ev, cls):
         return False
     if "dty" in m and m["dty"] != start.get("dty"):
         return False
-    if "classes" in m and cls not in m["classes"]:
+    if "classes" in m and not (set(cls.split("_")) & set(m["classes"])):
         return False
     if "max_depth" in m and start.get("sd", 0) > m["max_depth"]:
         return False
@@ -83,7 +83,7 @@ def judge(ctx, mm, classes, prop=None):
     for m in mm:
         start, ev, sl, el = event_of(m["file"], m["line"])
         m["start"], m["event"], m["lines"] = start, ev, [sl, el]
-        if classes is not None and m["cls"] not in classes:
+        if classes is not None and not (set(m["cls"].split("_")) & set(classes)):
             other.append(m)
             continue
         k = next((kf for kf in known if matches_known(kf, start, ev, m["cls"])), None)
